@@ -125,6 +125,59 @@ Definition good_in (k : tkind) (id : N) (x : tin) : bool :=
   | _ => true
   end.
 
+(* ---- vocabulary of the derived theorems (SpecProofs.v): simple scans of inputs/observations ---- *)
+Fixpoint events_of (os : list obs) : list outcome :=
+  match os with [] => [] | OPoll _ v _ :: os' => v ++ events_of os' | _ :: os' => events_of os' end.
+Fixpoint effects_of (os : list obs) : list eff :=
+  match os with [] => [] | OPoll e _ _ :: os' => e ++ effects_of os' | _ :: os' => effects_of os' end.
+(* the shell answered the timer's request: a response of the right kind and id was accepted (Ok) *)
+Fixpoint answered (k : tkind) (id : N) (xs : list tin) (os : list obs) : bool :=
+  match xs, os with
+  | IFire r :: xs', ORes c :: os' => (is_ok (class_start k id r) && N.eqb c 0) || answered k id xs' os'
+  | _ :: xs', _ :: os' => answered k id xs' os'
+  | _, _ => false
+  end.
+(* the app cleared the timer: the first thing it does with the handle is clear() (not drop) *)
+Fixpoint app_cleared (xs : list tin) : bool :=
+  match xs with [] => false | IClear :: _ => true | IDropHandle :: _ => false | _ :: xs' => app_cleared xs' end.
+(* ... and it does so before the command is ever run *)
+Fixpoint cleared_before_start (xs : list tin) : bool :=
+  match xs with [] => false | IClear :: _ => true | IDropHandle :: _ => false | IPoll :: _ => false
+  | _ :: xs' => cleared_before_start xs' end.
+(* the shell dropped a request of this timer (start or clear request) *)
+Fixpoint req_dropped (xs : list tin) (os : list obs) : bool :=
+  match xs, os with
+  | IDropReq :: xs', ORes c :: os' => N.eqb c 3 || req_dropped xs' os'
+  | IDropClr :: xs', ORes c :: os' => N.eqb c 3 || req_dropped xs' os'
+  | _ :: xs', _ :: os' => req_dropped xs' os'
+  | _, _ => false
+  end.
+Definition good (k : tkind) (id : N) (xs : list tin) : bool := forallb (good_in k id) xs.
+Definition quiet_obs (o : obs) : Prop := match o with OPoll e v d => e = [] /\ v = [] /\ d = true | _ => True end.
+
+(* the inputs and observations of timer number i within a run of several timers *)
+Fixpoint proj_on (i : nat) (xs : list sin) (os : list obs) : list (tin * obs) :=
+  match xs, os with
+  | SOn j x :: xs', o :: os' => if Nat.eqb j i then (x, o) :: proj_on i xs' os' else proj_on i xs' os'
+  | SStart _ :: xs', _ :: os' => proj_on i xs' os'
+  | _, _ => []
+  end.
+(* kind, id and projected trace of the timer that is the i-th to be started (n timers exist already) *)
+Fixpoint timer_view (n i : nat) (xs : list sin) (os : list obs) : option (tkind * N * list (tin * obs)) :=
+  match xs, os with
+  | SStart k :: xs', OStarted id :: os' =>
+      if Nat.eqb n i then Some (k, id, proj_on i xs' os') else timer_view (S n) i xs' os'
+  | SOn _ _ :: xs', _ :: os' => timer_view n i xs' os'
+  | _, _ => None
+  end.
+Definition ids_of (st : list srec) : list N := map (fun r => snd (fst r)) st.
+Fixpoint started_ids (xs : list sin) (os : list obs) : list N :=
+  match xs, os with
+  | SStart _ :: xs', OStarted id :: os' => id :: started_ids xs' os'
+  | _ :: xs', _ :: os' => started_ids xs' os'
+  | _, _ => []
+  end.
+
 (* verdict of one correspondence case (see CONTRIBUTING.md): 0 agree and C18_ok; 1 differ but
    C18_ok holds of the implementation's trace; 2 C18_ok fails on the implementation's trace *)
 Definition verdict (c0 : N) (xs : list sin) (impl : list obs) : N :=
